@@ -49,6 +49,40 @@ func (p *pb) prog() string { return strings.Join(p.ops, ";") }
 // every run and not only when the random generator happens to draw it.
 func sysEW(prop string, r *rng, emit func(string)) {
 	sh := []int{2, 3}
+	// a rank-0 tensor as one operand (the library treats it as a scalar): every operation, both
+	// sides, every mode; the scalar tensor itself is observed after the call like every other tensor
+	for _, dt := range []string{"f64", "i", "f32"} {
+		var opl []string
+		switch prop {
+		case "C06", "C07":
+			for _, op := range []string{"add", "sub", "mul", "div", "mod", "pow"} {
+				if (op == "pow" || op == "div") && dt == "i" {
+					continue
+				}
+				opl = append(opl, "bin:"+op+":%d:%d:%s")
+			}
+		case "C11":
+			for _, op := range cmpOps {
+				opl = append(opl, "cmp:"+op+":%d:%d:bool:%s", "cmp:"+op+":%d:%d:same:%s")
+			}
+		}
+		for _, o := range opl {
+			for _, side := range [][2]int{{0, 1}, {1, 0}} {
+				modes := []string{"safe"}
+				if prop != "C06" {
+					modes = []string{"safe", "unsafe", "reuse.2", "incr.2"}
+				}
+				for _, m := range modes {
+					if strings.HasPrefix(o, "cmp:") && (strings.HasPrefix(m, "incr") || (strings.Contains(o, ":bool:") && m != "safe")) {
+						continue // a Bool result cannot land in a tensor of the operands' type
+					}
+					for _, tsh := range []string{"4", "2,2"} {
+						emit(fmt.Sprintf("prog %s new:rm:%s:4;new:rm:_:2;new:rm:%s:50;%s", dt, tsh, tsh, fmt.Sprintf(o, side[0], side[1], m)))
+					}
+				}
+			}
+		}
+	}
 	lays := []string{"rm", "T", "stepslice", "cm", "cmslice"}
 	dts := []string{"i", "i64", "i32", "f64", "f32"}
 	for _, dt := range dts {
